@@ -21,6 +21,7 @@
  * limitations under the License.
  */
 
+#include <limits.h>
 #include <math.h>
 #include <stdbool.h>
 #include <stdio.h>
@@ -556,10 +557,17 @@ unsigned cmb_random_geometric(const double p)
     static CMB_THREAD_LOCAL double prev = 0.0;
     static CMB_THREAD_LOCAL double denom = 0.0;
     if (p != prev) {
-        denom = -log(1.0 - p);
+        /* Not log(1.0 - p), which is log(1.0) = 0 for p below 1e-16 */
+        denom = -log1p(-p);
+        prev = p;
     }
 
-    unsigned x = (unsigned)ceil(cmb_random_std_exponential() / denom);
+    /* For small p the number of trials may not fit the return type */
+    const double trials = ceil(cmb_random_std_exponential() / denom);
+    unsigned x = (trials < (double)UINT_MAX) ? (unsigned)trials : UINT_MAX;
+    if (x < 1u) {
+        x = 1u;
+    }
 
     cmb_assert_debug(x >= 1u);
     return x;
